@@ -369,4 +369,35 @@ Proof.
   intros s HI HK. rewrite (G s [] HI HK). reflexivity.
 Qed.
 
+(** ---------- multi-result calls (split, split_indirect) ---------- *)
+(** A call that stores n results is the sequence of its n single-result expansions, executed
+    in one write phase.  Registry-level facts used by the correspondence check of such calls:
+    a result that is created and then dropped leaves every other handle's denotation and
+    count unchanged and makes its own handle vacant again (so a batch of transient results
+    leaves the registry as it was), and two results of one batch never share a handle. *)
+Theorem transient_result_neutral r c r1 k r2 o :
+  step_abs r c r1 (RKey k) -> step_abs r1 (Drop k) r2 o ->
+  o = ROk /\ forall k', r2 k' = r k'.
+Proof.
+  intros H1 H2.
+  assert (Hk : r k = None) by (eapply fresh_handle; exact H1).
+  assert (Hv : exists v, r1 = upd r k (Some (1%N, v))).
+  { inversion H1; subst; eexists; reflexivity. }
+  destruct Hv as [v ->].
+  assert (Hg : upd r k (Some (1%N, v)) k = Some (1%N, v)) by (unfold upd; rewrite Nat.eqb_refl; reflexivity).
+  inversion H2; subst.
+  - split; [reflexivity|]. intros k'. unfold upd. destruct (Nat.eqb_spec k k') as [<-|Hd]; [symmetry; exact Hk|reflexivity].
+  - match goal with Hx : upd r k _ k = Some (?n, _), Hy : ?n <> 1%N |- _ => rewrite Hg in Hx; inversion Hx; subst; congruence end.
+  - match goal with Hx : upd r k _ k = None |- _ => rewrite Hg in Hx; discriminate end.
+Qed.
+
+Theorem batch_results_distinct r c1 r1 k1 c2 r2 k2 :
+  step_abs r c1 r1 (RKey k1) -> step_abs r1 c2 r2 (RKey k2) -> k1 <> k2.
+Proof.
+  intros H1 H2 E. subst k2.
+  assert (Hk : r1 k1 = None) by (eapply fresh_handle; exact H2).
+  assert (Hv : exists v, r1 = upd r k1 (Some (1%N, v))) by (inversion H1; subst; eexists; reflexivity).
+  destruct Hv as [v ->]. unfold upd in Hk. rewrite Nat.eqb_refl in Hk. discriminate.
+Qed.
+
 End Store.
